@@ -17,7 +17,7 @@ from harness.c04 import oracle as orc
 ID = "C04"
 COQ_PROP = "props/C04.v"
 CORR_REQUIRE = ["Crit", "gen.TermsTable", "Terms", "Page", "gen.QueryTable", "Query", "QueryCorr", "Parse", "C02Model",
-                "C02Expected", "C02Frag", "gen.C04Table", "Select", "SelectCorr"]
+                "C02Frag", "gen.C04Table", "Select", "SelectCorr"]
 CORR_CHECK = "check_c04"
 CORR_SHOW = "show_c04"
 GEN_FILES = ["gen/C04Table.v"]
